@@ -42,21 +42,27 @@ theorem decStream_encStream (P : Pred H) (plain : Array Nat) (blocks : List Bloc
   Proofs.decStream_encStream P plain blocks pad hv hpad ops he rest
 
 /-- What the parser returns is a valid expansion of the plaintext it returns (the hypothesis of the
-    mirror theorem is what `parse` guarantees), for inputs below 512 MiB (the code converts the token
-    count of a block to u32). -/
-theorem parse_valid (bs : Bits) (hbs : bs.length < 2 ^ 32 - 1) (p : Parsed) (h : parseBits bs = .ok p) :
+    mirror theorem is what `parse` guarantees) — for EVERY input: the parser's 2 GiB guard
+    (`check_plain_text_size`, mirrored in the model) bounds the token count of a block, which the code
+    converts to u32. -/
+theorem parse_valid (bs : Bits) (p : Parsed) (h : parseBits bs = .ok p) :
     StreamValid p.plain p.blocks ∧ p.eofPadding < 256 :=
-  Proofs.parse_valid bs hbs p h
+  Proofs.parse_valid_unbounded bs p h
+
+/-- accepted streams stay below 2 GiB of plaintext and 2^31 - 1 tokens per block -/
+theorem accepted_stream_bounds (d : List UInt8) (p : Parsed) (h : parse d = .ok p) :
+    p.plain.size ≤ 2147483647 ∧ ∀ b ∈ p.blocks, (blockTokens b).length < 2 ^ 31 - 1 :=
+  ⟨Proofs.parse_plain_lt d p h, Proofs.parse_tokens_lt d p h⟩
 
 /-- END TO END, for ANY predictor: if analysing an accepted stream yields corrections, then
     reconstruction from those corrections followed by the block writer returns exactly the bytes
     the parser consumed: recompress(analyze D) = D[..compressed_size] at the level of operations
     (C10 carries operations to binary decisions; the bool coder is the remaining assumption). -/
-theorem recompress_analyze (P : Pred H) (d : List UInt8) (hd : d.length < 2 ^ 29) (p : Parsed)
+theorem recompress_analyze (P : Pred H) (d : List UInt8) (p : Parsed)
     (hp : parse d = .ok p) (ops : List Op) (he : encStream P p.plain p.blocks p.eofPadding = .ok ops) :
     ∃ blocks pad, decStream P p.plain ops = .ok (blocks, pad, []) ∧
       writeStream blocks pad = .ok (d.take (p.consumed d)) :=
-  Proofs.recompress_analyze P d hd p hp ops he
+  Proofs.recompress_analyze P d p hp ops he
 
 
 /-- BYTE LEVEL: the parser's result depends only on the bytes it consumed — removing or replacing
@@ -72,19 +78,19 @@ theorem parse_prefix (d : List UInt8) (p : Parsed) (h : parse d = .ok p) (x : Li
     Ok(r), with either verify setting, reconstruction returns exactly D[..r.size]. -/
 theorem recompress_decompress (est : Array Nat → List Block → R Params) (mk : Params → Pred H)
     (hest : ∀ pl bl q, est pl bl = .ok q → EstimatorRange q)
-    (verify : Bool) (d : List UInt8) (hd : d.length < 2 ^ 29) (r : StreamResult)
+    (verify : Bool) (d : List UInt8) (r : StreamResult)
     (h : decompressStream est mk verify d = .ok r) :
     recompressStream mk r.plain r.corr = .ok (d.take r.size) ∧ r.size ≤ d.length :=
-  Proofs.recompress_decompress est mk hest verify d hd r h
+  Proofs.recompress_decompress est mk hest verify d r h
 
 /-- both verify settings return the same result: the verify=true block (re-read of the parameters
     with its `assert_eq!`, reconstruction, comparison) always passes when the analysis succeeded, so it
     changes neither Ok/Err nor r -/
 theorem verify_same (est : Array Nat → List Block → R Params) (mk : Params → Pred H)
     (hest : ∀ pl bl q, est pl bl = .ok q → EstimatorRange q)
-    (d : List UInt8) (hd : d.length < 2 ^ 29) :
+    (d : List UInt8) :
     decompressStream est mk true d = decompressStream est mk false d :=
-  Proofs.verify_same est mk hest d hd
+  Proofs.verify_same est mk hest d
 
 /-- the result depends only on D[..r.size]: removing or replacing the bytes after it changes nothing -/
 theorem decompress_prefix (est : Array Nat → List Block → R Params) (mk : Params → Pred H)
@@ -118,22 +124,21 @@ theorem chains_pred_bounded (p : Params) : PredBounded (Chains.pred p) :=
     a failure), so success means a demand-driven decoder asks exactly these sequences. -/
 theorem decompress_bytes_chain (est : Array Nat → List Block → R Params) (mk : Params → Pred H)
     (hest : ∀ pl bl q, est pl bl = .ok q → EstimatorRange q) (hb : ∀ q, PredBounded (mk q))
-    (verify : Bool) (d : List UInt8) (hd : d.length < 2 ^ 29) (r : StreamResult)
-    (h : decompressStream est mk verify d = .ok r) (hsize : r.plain.size < 2 ^ 31 - 1) :
+    (verify : Bool) (d : List UInt8) (r : StreamResult)
+    (h : decompressStream est mk verify d = .ok r) :
     ∃ evs bytes, encodeOps 0 r.corr = .ok evs ∧ encodeBytes r.corr = .ok bytes ∧
       decodeOps 0 (r.corr.map Op.kind) (VP8.readEvents bytes (evs.map (·.ctx))) = .ok (r.corr, 0, []) ∧
       recompressStream mk r.plain r.corr = .ok (d.take r.size) := by
-  have hrec := (recompress_decompress est mk hest verify d hd r h).1
+  have hrec := (recompress_decompress est mk hest verify d r h).1
   obtain ⟨p, params, hdr, body, h1, h2, h3, h4, rfl⟩ := Proofs.decompressStream_ok h
-  have hl := Proofs.length_bytesToBits d
-  obtain ⟨hv, hpad⟩ := Proofs.parse_valid (bytesToBits d) (by omega) p h1
+  obtain ⟨hv, hpad⟩ := Proofs.parse_valid_unbounded (bytesToBits d) p h1
   obtain ⟨ops, e1, _, hwf1⟩ := Proofs.readParams_writeParams params
     (Proofs.estimatorRange_wf params (hest _ _ _ h2)) []
   rw [h3] at e1
   simp only [Except.ok.injEq] at e1
   subst e1
-  have hwf2 := Proofs.encStream_ops_wf (mk params) (hb params) p.plain p.blocks p.eofPadding hv hpad
-    hsize body h4
+  have hwf2 := Proofs.encStream_ops_wf' (mk params) (hb params) p.plain p.blocks p.eofPadding hv hpad
+    (Proofs.parse_tokenCountsSmall d p h1) body h4
   have hwf : ∀ o ∈ hdr ++ body, o.WF := by
     intro o ho
     rcases List.mem_append.mp ho with ho | ho
